@@ -6,9 +6,15 @@
    the output emit each comment token of the slice they are given exactly once, in order, as Display prints it
    (C10_all_comments_once, C10_leading_comments_once / C10_leading_comments_prefix), and a leaf statement is printed
    as exactly the comments of its own token range followed by its text (C10_leaf_statement_comments).
-   STATED, NOT PROVED: C10_no_dup_full_statement (no comment is emitted twice ACROSS constructs: needs the parser's
-   range invariants - disjoint, nested token ranges - of C04/C05); the survival of comments in the covered gap kinds
-   is validated on the implementation for every gap of every generated program. *)
+   Section 6 gives the EXACT CHARACTERISATION for every layout of every valid abstract program (Spec/Grammar.v), comments
+   anywhere: the comments of the formatted document are exactly the comments of [kept p] - the program with the comments
+   where the printers put them - in order, each once (C10_comments_exactly_kept); they are an order-preserving sublist of
+   the source's comments, so no comment is ever invented, duplicated or moved across another comment
+   (C10_no_comment_invented_or_duplicated: this is C10_no_dup_full_statement for these documents); and none is lost IF AND
+   ONLY IF every comment stands in a printed slot (C10_all_kept_iff, [all_comments_printed]; it generalises [lead_only]:
+   C10_lead_only_all_printed).  C10_gap_kinds_ex lists, for a program with a comment in each of its 64 gaps, the 37 that
+   survive and the 27 that are lost.
+   STATED ONLY: C10_no_dup_full_statement in the form with the hypothesis `syntactically_valid doc`. *)
 From Coq Require Import String.
 From Spl Require Import Model.Format Model.Lexer Proofs.FormatProofs.
 Import ListNotations.
@@ -110,3 +116,153 @@ Theorem C10_lead_comments_kept : forall p doc toks ins ts,
     Forall (fun t => terr t = []) toks'.
 Proof. exact FormatStructProg.document_lead. Qed.
 Print Assumptions C10_lead_comments_kept.
+
+(* ================================================================================================
+   6. The exact characterisation, for every valid program with comments anywhere (Proofs/FormatAny*.v)
+
+   [kept p] (unfolded in Props/C09.v, C09_kept_unfold): every slot inside an expression / variable / type expression
+   emptied; an assignment, a call, a parameter, a variable declaration carries ALL comments of its token range in front of
+   its first token; if / while keep the comments in front of the keyword only; a block keeps the comments in front of `{`
+   unless it is the branch of an if / while, and never those in front of `}`; `type` / `proc` keep their doc comments only;
+   nothing in front of EOF.  Hoisting moves a comment in front of the code of its construct, never across another comment:
+   the RELATIVE ORDER of the surviving comments is the source order (no reordering finding). *)
+From Spl Require Import Spec.Grammar Proofs.PipelineText Proofs.FormatStructProg Proofs.FormatAnyPP Proofs.FormatAnyKept
+  Proofs.FormatAnyThm Proofs.FormatAnyComments.
+
+Example C10_kept_unfold :
+  (forall p, all_comments_printed p = (cmts (flatten (kept p)) = cmts (flatten p)))
+  /\ (forall ks, cmts ks = flat_map (fun k => match k with Comment s => [s] | _ => [] end) ks)
+  /\ (forall p, kept p = {| a_decls := map k_decl (a_decls p); a_ceof := [] |})
+  /\ (forall (x : text) l' l, subseq l' l -> subseq (x :: l') (x :: l)) /\ (forall (x : text) l' l, subseq l' l -> subseq l' (x :: l))
+  /\ subseq (@nil text) [].
+Proof. repeat split; try reflexivity; intros; constructor; assumption. Qed.
+
+(* the formatted document's comments are exactly the comments of [kept p], in order, each once *)
+Theorem C10_comments_exactly_kept : forall p doc toks ins ts,
+  prog_ok p = true -> aprog_valid p = true -> lex doc = Some toks -> map tk toks = flatten p ++ [Eof] ->
+  exists txt toks',
+    formatted_text doc ins ts = Done txt /\ lex txt = Some toks' /\
+    comment_bodies toks' = map trim (cmts (flatten (kept p))) /\
+    comment_bodies toks = map trim (cmts (flatten p)).
+Proof.
+  intros p doc toks ins ts H1 H2 H3 H4.
+  destruct (document_comments p doc toks ins ts H1 H2 H3 H4) as (txt & toks' & E1 & E2 & E3 & E4 & _).
+  exists txt, toks'. repeat split; assumption.
+Qed.
+Print Assumptions C10_comments_exactly_kept.
+
+(* ... an order-preserving sublist of the source's comments: nothing invented, nothing duplicated, nothing reordered *)
+Theorem C10_no_comment_invented_or_duplicated : forall p doc toks ins ts,
+  prog_ok p = true -> aprog_valid p = true -> lex doc = Some toks -> map tk toks = flatten p ++ [Eof] ->
+  exists txt toks',
+    formatted_text doc ins ts = Done txt /\ lex txt = Some toks' /\
+    subseq (comment_bodies toks') (comment_bodies toks) /\
+    (forall c, In c (comment_bodies toks') -> In c (comment_bodies toks)) /\
+    (forall c, (count_occ (list_eq_dec N.eq_dec) (comment_bodies toks') c <= count_occ (list_eq_dec N.eq_dec) (comment_bodies toks) c)%nat).
+Proof.
+  intros p doc toks ins ts H1 H2 H3 H4.
+  destruct (document_comments p doc toks ins ts H1 H2 H3 H4) as (txt & toks' & E1 & E2 & _ & _ & E5 & E6 & _).
+  exists txt, toks'. split; [exact E1|]. split; [exact E2|]. split; [exact E5|]. split; [|exact E6].
+  intros c. apply (subseq_incl _ _ E5).
+Qed.
+Print Assumptions C10_no_comment_invented_or_duplicated.
+
+(* ... and none is lost iff every comment stands in a printed slot *)
+Theorem C10_all_kept_iff : forall p doc toks ins ts,
+  prog_ok p = true -> aprog_valid p = true -> lex doc = Some toks -> map tk toks = flatten p ++ [Eof] ->
+  exists txt toks',
+    formatted_text doc ins ts = Done txt /\ lex txt = Some toks' /\
+    (comment_bodies toks' = comment_bodies toks <-> all_comments_printed p).
+Proof.
+  intros p doc toks ins ts H1 H2 H3 H4.
+  destruct (document_comments p doc toks ins ts H1 H2 H3 H4) as (txt & toks' & E1 & E2 & _ & _ & _ & _ & E7).
+  exists txt, toks'. repeat split; try assumption; apply E7.
+Qed.
+Print Assumptions C10_all_kept_iff.
+
+Theorem C10_lead_only_all_printed : forall p, lead_only p = true -> aprog_valid p = true -> all_comments_printed p.
+Proof. exact lead_only_all_printed. Qed.
+Print Assumptions C10_lead_only_all_printed.
+
+(* a comment in each of the 64 gaps of this program (the two-letter names say where):
+     t1 type t2 T t3 = ta array tl [ tz 3 tr ] to of tn int t4 ;
+     p1 proc p2 f p3 ( a1 a a2 : a3 int cm , r1 ref r2 b r3 : T p4 ) p5 {
+       v1 var v2 x v3 : vt int v4 ;
+       e1 ;
+       s1 x i1 [ l1 1 i2 ] s2 := n1 - q1 ( y1 y m1 * 2 d1 + 3 q2 ) s3 ;
+       c1 g c2 ( 1 ca , 2 c3 ) c4 ;
+       w1 while w2 ( x b1 < 1 w3 ) k1 { k2 }
+       f1 if f2 ( x f3 ) g1 ; f4 else h1 if h2 ( x ) { j1 ; j2 }
+       z1 { ; z2 }
+     p6 } eo *)
+Definition c10_f (f : afac) : acmp := CAdd (AMul (MFac f)).
+Definition c10_x : acmp := c10_f (FVar (AName [] (str "x"))).
+Definition c10_prog : aprog :=
+  {| a_decls :=
+       [DType [str " t1"] [str " t2"] (str "T") [str " t3"]
+          (TArr [str " ta"] [str " tl"] [str " tz"] (LDec 3) [str " tr"] [str " to"] (TName [str " tn"] (str "int"))) [str " t4"];
+        DProc [str " p1"] [str " p2"] (str "f") [str " p3"]
+          (Some (PVal [str " a1"] (str "a") [str " a2"] (TName [str " a3"] (str "int")),
+                 [([str " cm"], PRef [str " r1"] [str " r2"] (str "b") [str " r3"] (TName [] (str "T")))]))
+          [str " p4"] [str " p5"]
+          [{| v_c1 := [str " v1"]; v_c2 := [str " v2"]; v_x := str "x"; v_c3 := [str " v3"]; v_t := TName [str " vt"] (str "int"); v_c4 := [str " v4"] |}]
+          (SCons (SEmp [str " e1"])
+          (SCons (SAsg (AIndex (AName [str " s1"] (str "x")) [str " i1"] (c10_f (FLit [str " l1"] (LDec 1))) [str " i2"]) [str " s2"]
+                    (c10_f (FNeg [str " n1"] (FPar [str " q1"]
+                       (CAdd (ABin (AMul (MBin (MFac (FVar (AName [str " y1"] (str "y")))) [str " m1"] MTimes (FLit [] (LDec 2))))
+                                   [str " d1"] APlus (MFac (FLit [] (LDec 3))))) [str " q2"]))) [str " s3"])
+          (SCons (SCal [str " c1"] (str "g") [str " c2"] (Some (c10_f (FLit [] (LDec 1)), [([str " ca"], c10_f (FLit [] (LDec 2)))])) [str " c3"] [str " c4"])
+          (SCons (SWhl [str " w1"] [str " w2"] (CBin (AMul (MFac (FVar (AName [] (str "x"))))) [str " b1"] CLt (AMul (MFac (FLit [] (LDec 1)))))
+                    [str " w3"] (SBlk [str " k1"] SNil [str " k2"]))
+          (SCons (SIfE [str " f1"] [str " f2"] c10_x [str " f3"] (SEmp [str " g1"]) [str " f4"]
+                    (SIfT [str " h1"] [str " h2"] c10_x [] (SBlk [] (SCons (SEmp [str " j1"]) SNil) [str " j2"])))
+          (SCons (SBlk [str " z1"] (SCons (SEmp []) SNil) [str " z2"])
+           SNil))))))
+          [str " p6"]];
+     a_ceof := [str " eo"] |}.
+Fixpoint c10_lines (l : list string) : text := match l with [] => [] | s :: r => str s ++ [10] ++ c10_lines r end.
+Definition c10_doc : text := c10_lines [
+  "// t1"; "type// t2"; "T// t3"; "=// ta"; "array// tl"; "[// tz"; "3// tr"; "]// to"; "of// tn"; "int// t4"; ";// p1";
+  "proc// p2"; "f// p3"; "(// a1"; "a// a2"; ":// a3"; "int// cm"; ",// r1"; "ref// r2"; "b// r3"; ":T// p4"; ")// p5"; "{// v1";
+  "var// v2"; "x// v3"; ":// vt"; "int// v4"; ";// e1";
+  ";// s1"; "x// i1"; "[// l1"; "1// i2"; "]// s2"; ":=// n1"; "-// q1"; "(// y1"; "y// m1"; "*2// d1"; "+3// q2"; ")// s3"; ";// c1";
+  "g// c2"; "(1// ca"; ",2// c3"; ")// c4"; ";// w1";
+  "while// w2"; "(x// b1"; "<1// w3"; ")// k1"; "{// k2"; "}// f1";
+  "if// f2"; "(x// f3"; ")// g1"; ";// f4"; "else// h1"; "if// h2"; "(x){// j1"; ";// j2"; "}// z1";
+  "{;// z2"; "}// p6"; "}// eo"]%string.
+
+Definition c10_survivors : list text :=
+  map str ["t1"; "p1"; "a1"; "a2"; "a3"; "r1"; "r2"; "r3"; "v1"; "v2"; "v3"; "vt"; "v4"; "e1";
+           "s1"; "i1"; "l1"; "i2"; "s2"; "n1"; "q1"; "y1"; "m1"; "d1"; "q2"; "s3"; "c1"; "c2"; "ca"; "c3"; "c4";
+           "w1"; "f1"; "g1"; "h1"; "j1"; "z1"]%string.
+Definition c10_lost : list text :=
+  map str ["t2"; "t3"; "ta"; "tl"; "tz"; "tr"; "to"; "tn"; "t4"; "p2"; "p3"; "cm"; "p4"; "p5";
+           "w2"; "b1"; "w3"; "k1"; "k2"; "f2"; "f3"; "f4"; "h2"; "j2"; "z2"; "p6"; "eo"]%string.
+
+Example C10_gap_kinds_ex :
+  aprog_valid c10_prog = true /\ prog_ok c10_prog = true /\ lead_only c10_prog = false
+  /\ match lex c10_doc with Some toks => map tk toks = flatten c10_prog ++ [Eof] | None => False end
+  /\ length (cmts (flatten c10_prog)) = 64%nat /\ length c10_survivors = 37%nat /\ length c10_lost = 27%nat
+  /\ map trim (cmts (flatten (kept c10_prog))) = c10_survivors
+  /\ match lex c10_doc, formatted_text c10_doc true 2 with
+     | Some toks, Done out =>
+         match lex out with
+         | Some toks' => comment_bodies toks' = c10_survivors
+                         /\ filter (fun c => negb (existsb (text_eqb c) c10_survivors)) (comment_bodies toks) = c10_lost
+         | None => False
+         end
+     | _, _ => False
+     end.
+Proof. vm_compute. repeat split; reflexivity. Qed.
+
+(* the instance THROUGH the theorem, for all option settings *)
+Example C10_comments_exactly_kept_ex : forall ins ts,
+  exists txt toks', formatted_text c10_doc ins ts = Done txt /\ lex txt = Some toks' /\ comment_bodies toks' = c10_survivors.
+Proof.
+  intros ins ts. destruct (lex c10_doc) as [toks|] eqn:El; [|vm_compute in El; discriminate].
+  assert (H1 : prog_ok c10_prog = true) by (vm_compute; reflexivity).
+  assert (H3 : aprog_valid c10_prog = true) by (vm_compute; reflexivity).
+  assert (H5 : map tk toks = flatten c10_prog ++ [Eof]) by (vm_compute in El; injection El as <-; vm_compute; reflexivity).
+  destruct (C10_comments_exactly_kept c10_prog c10_doc toks ins ts H1 H3 El H5) as (txt & toks' & E1 & E2 & E3 & _).
+  exists txt, toks'. split; [exact E1|]. split; [exact E2|]. rewrite E3. vm_compute. reflexivity.
+Qed.
